@@ -107,6 +107,9 @@ def run(pid, tier, seed):
                                       % (res["flavour"], json.dumps(m["graph"]["out"]), json.dumps(m["loop"]), m["closure"], json.dumps(m["script"]),
                                          m["observed"]["outcome"][:120], json.dumps(m["observed"]["yields"])[:200], ", ".join(sorted(set(reasons)))),
                                       dict(m, source="tlc-generated-case", tlc_reasons=reasons))
+    cov = vlib.action_coverage("MC_Cursor", vlib.cfg_text({"Nodes": {1, 2}, "Vals": {1}, "Directed": True, "MaxEdges": 2, "MaxScript": 1, "MaxAt": 2,
+                                                            "LoopKinds": tla_strs(LOOPS), "QDirs": tla_strs(["out", "in"])},
+                                                           spec="CSpecEmit", invariants=["LastYieldExists", "Bounded", "MirrorKept"]), "%s/cov" % tag)
     # random larger runs
     jobs = [("record-cursor", {"flavour": f, "runs": T["runs"], "nodes": T["rnodes"], "seed": seed, "trace": os.path.join(d, "rec_%s.ndjson" % f)},
              os.path.join(d, "rec_%s.json" % f)) for f in ALL4]
@@ -133,7 +136,7 @@ def run(pid, tier, seed):
                     "recorded_events_validated_by_tlc": events, "evaluations": execs + events, "distinct_nontrivial": nontriv,
                     "rule": "one execution = (graph, loop, script, closure kind) on one flavour; non-trivial = at least one script entry actually ran "
                             "inside the loop; distinct by hash of the case", "exhaustive": True, "model_drift": drift, "models": models,
-                    "flavours": ALL4, "recorders": recs})
+                    "flavours": ALL4, "recorders": recs, "action_coverage_small_model": cov})
     rep.assumptions += ["script operations run from the loop body / for_each / filter closure of the running loop, on the same and on other nodes",
                         "non-termination = more than 2000 yields (far above any finite legitimate count for <= 6 nodes and <= 6 script entries)",
                         "'query' entries = all node observers, a nested bfs and a nested transposed dfs cycle search, container get/contains/index/insert/remove/to_vec/to_dot"]
